@@ -4,6 +4,9 @@ import Dashu.Proofs.Conv.Fast
 import Dashu.Proofs.Conv.TryTo
 import Dashu.Proofs.Conv.Modes
 import Dashu.Proofs.Float.FBigOps
+import Dashu.Proofs.Conv.Base
+import Dashu.Proofs.Conv.Kind
+import Dashu.Proofs.Conv.ModeFlag
 /-
   C06 — Conversions are lossless or refused; lossy ones are correctly rounded and say so.
 
@@ -591,5 +594,167 @@ example : ibigTryToSigned 64 8 (fromSigned 64 8 (-128)) = .ok (-128) ∧
 example : ((2 ^ 24 + 1 : Int) % 2 = 1) ∧
     fbigToFloat into32 .down coarseNone ⟨2 ^ 24 + 1, 0⟩ = .ok (0x4b800000, some .NoOp) ∧
     ¬ ModeBad .binary32 (convMode .down) false (2 ^ 24 + 1) 0 := by decide +kernel
+
+/-! ## Round 4 — refusal kind of `TryFrom<RBig> for f32/f64`; the flag of `FBig::<R,2>::to_f32` in every mode;
+    `to_f32/to_f64` of floats whose base is not 2 (mirrored `convert_base` branches) -/
+
+/-- **`TryFrom<RBig> for f32`, value AND refusal kind** (current tree): for every rational in lowest terms the
+    mirrored conversion returns exactly `ratTryToFloatSpec` — `Ok` iff exactly representable; a non-dyadic value ⇒
+    LossOfPrecision; magnitude `≥ 2^128` ⇒ OutOfBounds; below `2^-150` ⇒ LossOfPrecision; otherwise OutOfBounds
+    exactly when the odd part fits `i32` and the value rounds to ±∞ — and never panics.  (This is the specification
+    the driver prints for `r.tryto_f32`; it was a per-case comparison before.) -/
+theorem rbig_try_to_f32_kind (num : Int) (den : Nat) (hden : den ≠ 0) (hco : Nat.Coprime num.natAbs den) :
+    ratTryToFloat f32Fixed (-149) 128 num den = .ok (ratTryToFloatSpec .binary32 32 num den) :=
+  ratTryToFloat_kind f32Fixed .binary32 f32Fixed_compatible (by decide) (-149) 128 (by decide) (by decide)
+    num den hden hco
+
+theorem rbig_try_to_f64_kind (num : Int) (den : Nat) (hden : den ≠ 0) (hco : Nat.Coprime num.natAbs den) :
+    ratTryToFloat f64Fixed (-1074) 1024 num den = .ok (ratTryToFloatSpec .binary64 64 num den) :=
+  ratTryToFloat_kind f64Fixed .binary64 f64Fixed_compatible (by decide) (-1074) 1024 (by decide) (by decide)
+    num den hden hco
+
+/-- **an `OutOfBounds` refusal is truthful**: it is returned only for a value whose correctly rounded float is ±∞
+    (and which is therefore not representable), never for a value inside the finite range -/
+theorem rbig_try_to_f32_out_of_bounds_truthful (num : Int) (den : Nat) (hden : den ≠ 0)
+    (hco : Nat.Coprime num.natAbs den) (h : ratTryToFloat f32Fixed (-149) 128 num den = .ok (.error .outOfBounds)) :
+    (ieeeRoundRat .binary32 .halfEven num den).1 % Ieee.binary32.signBit = Ieee.binary32.infBits ∧
+      (ieeeRoundRat .binary32 .halfEven num den).2 ≠ .exact :=
+  ratTryToFloat_outOfBounds_truthful f32Fixed .binary32 f32Fixed_compatible (by decide) (-149) 128 (by decide)
+    (by decide) num den hden hco h
+
+theorem rbig_try_to_f64_out_of_bounds_truthful (num : Int) (den : Nat) (hden : den ≠ 0)
+    (hco : Nat.Coprime num.natAbs den) (h : ratTryToFloat f64Fixed (-1074) 1024 num den = .ok (.error .outOfBounds)) :
+    (ieeeRoundRat .binary64 .halfEven num den).1 % Ieee.binary64.signBit = Ieee.binary64.infBits ∧
+      (ieeeRoundRat .binary64 .halfEven num den).2 ≠ .exact :=
+  ratTryToFloat_outOfBounds_truthful f64Fixed .binary64 f64Fixed_compatible (by decide) (-1074) 1024 (by decide)
+    (by decide) num den hden hco h
+
+/-- **every dyadic value of magnitude `≥ 2^128` (`2^1024`) is refused with `OutOfBounds`** -/
+theorem rbig_try_to_f32_large_dyadic (num : Int) (j : Nat) (hco : Nat.Coprime num.natAbs (2 ^ j)) (h0 : num ≠ 0)
+    (ht : (128 : Int) < (bitLen num.natAbs : Int) - (j : Int)) :
+    ratTryToFloat f32Fixed (-149) 128 num (2 ^ j) = .ok (.error .outOfBounds) :=
+  ratTryToFloat_large_dyadic f32Fixed .binary32 f32Fixed_compatible (by decide) (-149) 128 (by decide) (by decide)
+    num j hco h0 (by have : Ieee.binary32.emax + 1 = 128 := by decide
+                     omega)
+
+theorem rbig_try_to_f64_large_dyadic (num : Int) (j : Nat) (hco : Nat.Coprime num.natAbs (2 ^ j)) (h0 : num ≠ 0)
+    (ht : (1024 : Int) < (bitLen num.natAbs : Int) - (j : Int)) :
+    ratTryToFloat f64Fixed (-1074) 1024 num (2 ^ j) = .ok (.error .outOfBounds) :=
+  ratTryToFloat_large_dyadic f64Fixed .binary64 f64Fixed_compatible (by decide) (-1074) 1024 (by decide) (by decide)
+    num j hco h0 (by have : Ieee.binary64.emax + 1 = 1024 := by decide
+                     omega)
+
+-- non-vacuity: (2^31-1)·2^97 rounds to ∞ and its odd part fits i32 ⇒ OutOfBounds; (2^32-1)·2^96 also rounds to ∞ but
+-- its odd part does not fit ⇒ LossOfPrecision; 2^130 ⇒ OutOfBounds; 1/3 and 2^-151 ⇒ LossOfPrecision
+example : Nat.Coprime ((2 ^ 31 - 1) * 2 ^ 97 : Int).natAbs 1 ∧
+    ratTryToFloat f32Fixed (-149) 128 ((2 ^ 31 - 1) * 2 ^ 97) 1 = .ok (.error .outOfBounds) ∧
+    ratTryToFloat f32Fixed (-149) 128 ((2 ^ 32 - 1) * 2 ^ 96) 1 = .ok (.error .lossOfPrecision) ∧
+    (ieeeRoundRat .binary32 .halfEven ((2 ^ 32 - 1) * 2 ^ 96) 1).1 = 0x7f800000 ∧
+    ratTryToFloat f32Fixed (-149) 128 (-(2 ^ 130)) 1 = .ok (.error .outOfBounds) ∧
+    ratTryToFloat f32Fixed (-149) 128 1 3 = .ok (.error .lossOfPrecision) ∧
+    ratTryToFloat f32Fixed (-149) 128 1 (2 ^ 151) = .ok (.error .lossOfPrecision) ∧
+    ratTryToFloatSpec .binary32 32 ((2 ^ 31 - 1) * 2 ^ 97) 1 = .error .outOfBounds := by decide +kernel
+
+/-- **flag of `FBig::<R,2>::to_f32` for EVERY rounding mode `R`** (Zero, Away, Up, Down, HalfEven, HalfAway): where
+    the value is the once-rounded one (outside `ModeBad`, `fbig_to_f32_value_iff_every_mode`), the returned
+    `Rounding` is the truthful label of the error of that single rounding in mode `R` (`NoOp` = toward zero,
+    `AddOne`/`SubOne` = above/below; the driver's specification of `f.to_f32`) EXACTLY outside `ToFloatFlagBad` =
+    {the rounding inside `encode` increased the magnitude ∧ no overflow exit of `into_f32_internal`} — the closed form
+    of the recorded finding "flag replaced by NoOp" for the directed modes and HalfAway. -/
+theorem fbig_to_f32_flag_iff_every_mode (m : Float.Mode) (c : Coarse) (hc : CoarseSound c) (s e : Int)
+    (hodd : s % 2 = 1) (bits : Nat) (fl : Option Float.Rounding)
+    (h : fbigToFloat into32 m c ⟨s, e⟩ = .ok (bits, fl))
+    (hgood : ¬ ModeBad .binary32 (convMode m) (decide (s < 0)) s.natAbs e) :
+    fl = adjOfMag (decide (s < 0))
+          ((ieeeRoundRat .binary32 (convMode m) (floatAsRat 2 s e).1 (floatAsRat 2 s e).2).2.flipIf (decide (s < 0))) ↔
+      ¬ ToFloatFlagBad into32 m s e := by
+  have hs0 : s ≠ 0 := by intro h0; subst h0; simp at hodd
+  rw [ieeeRoundRat_float_snd .binary32 _ s e hs0]
+  have hflip : ∀ (f : Flag) (b : Bool), (f.flipIf b).flipIf b = f := by
+    intro f b; cases f <;> cases b <;> rfl
+  rw [hflip]
+  exact fbigToFloat_flag_iff_modes into32 into32_compat m c hc s e hodd bits fl h hgood
+
+/-- the same closed form for the 53-bit instantiation with an arbitrary mode of the first rounding (the code only
+    instantiates it with HalfEven: `FBig::to_f64` ignores the mode of the type) -/
+theorem fbig_to_f64_flag_iff_every_mode (m : Float.Mode) (c : Coarse) (hc : CoarseSound c) (s e : Int)
+    (hodd : s % 2 = 1) (bits : Nat) (fl : Option Float.Rounding)
+    (h : fbigToFloat into64 m c ⟨s, e⟩ = .ok (bits, fl))
+    (hgood : ¬ ModeBad .binary64 (convMode m) (decide (s < 0)) s.natAbs e) :
+    fl = adjOfMag (decide (s < 0)) (ieeeRoundMagM .binary64 (convMode m) (decide (s < 0)) s.natAbs e).2 ↔
+      ¬ ToFloatFlagBad into64 m s e :=
+  fbigToFloat_flag_iff_modes into64 into64_compat m c hc s e hodd bits fl h hgood
+
+/-- the true error sign of the single rounding in mode `R` is the composition of the first rounding's sign and the
+    sign of the half-even rounding inside `encode`, outside `ModeBad` (every format, every mode) -/
+theorem fbig_to_float_error_sign_composition (F : Ieee) (hF : F.Ok) (m : Float.Mode) (neg : Bool) (a : Nat) (e : Int)
+    (ha : a ≠ 0) (hgood : ¬ ModeBad F (convMode m) neg a e) :
+    (ieeeRoundMagM F (convMode m) neg a e).2 =
+      composeFlag (firstFlag F.prec m neg a)
+        (ieeeRoundMag F (firstRound F.prec m neg a e).1 (firstRound F.prec m neg a e).2.1).2 :=
+  modes_flag F hF m neg a e ha hgood
+
+-- non-vacuity and both sides of the iff (kernel-checked): `FBig<Up>` 3·2^127 overflows inside `encode` and is
+-- reported `Inexact(∞, NoOp)` (ToFloatFlagBad, value right); `FBig<Down>` (2^24+1) gives `NoOp` truthfully;
+-- `FBig<Away>` (2^24+1) gives `AddOne` truthfully
+example : ((3 : Int) % 2 = 1) ∧ ¬ ModeBad .binary32 (convMode .up) false 3 127 ∧ ToFloatFlagBad into32 .up 3 127 ∧
+    fbigToFloat into32 .up coarseNone ⟨3, 127⟩ = .ok (0x7f800000, some .NoOp) ∧
+    ¬ ModeBad .binary32 (convMode .down) false (2 ^ 24 + 1) 0 ∧ ¬ ToFloatFlagBad into32 .down (2 ^ 24 + 1) 0 ∧
+    fbigToFloat into32 .down coarseNone ⟨2 ^ 24 + 1, 0⟩ = .ok (0x4b800000, some .NoOp) ∧
+    ¬ ModeBad .binary32 (convMode .away) false (2 ^ 24 + 1) 0 ∧ ¬ ToFloatFlagBad into32 .away (2 ^ 24 + 1) 0 ∧
+    fbigToFloat into32 .away coarseNone ⟨2 ^ 24 + 1, 0⟩ = .ok (0x4b800001, some .AddOne) := by decide +kernel
+
+/-- **normal form of `FBig::<R,B>::to_f32`, `Repr::<B>::to_f32` for a base `B ≠ 2`** on every branch of
+    `convert_base::<B,2>` that does not go through `ln`/`exp` (B a power of two; |exponent| ≤ THRESHOLD_SMALL_EXP:
+    multiplication, `repr_div`, long-dividend path): a returned float is the IEEE round-to-nearest-even of the value
+    `v` that `convert_base` produced; `v` is the exact value `signif·B^exp` rounded to 24 significant bits under the
+    mode of the type (rounding contract of builder-text's `convert_base_contract`) and has at most 24 bits; the flag
+    is `convert_base`'s unless `into_f32_internal` reports its own. -/
+theorem fbig_base_to_f32_normal_form (W B : Nat) (hB : 2 ≤ B) (m : Float.Mode) (r : FRepr) (bits : Nat)
+    (fl : Option Float.Rounding) (h : fbigToFloatBase into32 intoSite32 W B m r = some (.ok (bits, fl))) :
+    ∃ (v : FRepr) (f1 : Option Float.Rounding),
+      Dashu.Model.Text.convertBase W B 2 m 24 r = .ok (v, f1) ∧
+      Contract 2 m 24 (r.toRat B) (v.toRat 2) f1 ∧ bitLen v.signif.natAbs ≤ 24 ∧
+      (v.signif ≠ 0 →
+        bits = (if v.signif < 0 then Ieee.binary32.signBit else 0) + (ieeeRoundMag .binary32 v.signif.natAbs v.exp).1 ∧
+        fl = andThenFlag f1 (intoFlag into32 (decide (v.signif < 0)) v.exp (ieeeRoundMag .binary32 v.signif.natAbs v.exp).2)) :=
+  fbigToFloatBase_normal into32 into32_compat intoSite32 W B hB m r bits fl h
+
+/-- the same for `FBig::<_,B>::to_f64` / `Repr::<B>::to_f64` (53 bits; the code always passes HalfEven) -/
+theorem fbig_base_to_f64_normal_form (W B : Nat) (hB : 2 ≤ B) (m : Float.Mode) (r : FRepr) (bits : Nat)
+    (fl : Option Float.Rounding) (h : fbigToFloatBase into64 intoSite64 W B m r = some (.ok (bits, fl))) :
+    ∃ (v : FRepr) (f1 : Option Float.Rounding),
+      Dashu.Model.Text.convertBase W B 2 m 53 r = .ok (v, f1) ∧
+      Contract 2 m 53 (r.toRat B) (v.toRat 2) f1 ∧ bitLen v.signif.natAbs ≤ 53 ∧
+      (v.signif ≠ 0 →
+        bits = (if v.signif < 0 then Ieee.binary64.signBit else 0) + (ieeeRoundMag .binary64 v.signif.natAbs v.exp).1 ∧
+        fl = andThenFlag f1 (intoFlag into64 (decide (v.signif < 0)) v.exp (ieeeRoundMag .binary64 v.signif.natAbs v.exp).2)) :=
+  fbigToFloatBase_normal into64 into64_compat intoSite64 W B hB m r bits fl h
+
+/-- **the panic region for a base `B ≠ 2`**: the conversion panics (debug build: `debug_assert!(bit_len <= 24|53)` in
+    `into_fNN_internal`; a release build rounds a second time inside `encode`) EXACTLY when `convert_base` returns a
+    significand of `prec + 1` bits (the extra quotient digit of `repr_div`) — closed form of the recorded finding
+    "FBig/Repr::to_f32/to_f64 (non-binary base)" -/
+theorem fbig_base_to_f64_panic_iff (W B : Nat) (hB : 2 ≤ B) (hne : B ≠ 2) (m : Float.Mode) (r : FRepr) :
+    fbigToFloatBase into64 intoSite64 W B m r = some (.error (.undocumented intoSite64)) ↔
+      ∃ (v : FRepr) (f1 : Option Float.Rounding), Dashu.Model.Text.convertBase W B 2 m 53 r = .ok (v, f1) ∧
+        bitLen v.signif.natAbs = 54 :=
+  fbigToFloatBase_panic_iff into64 into64_compat intoSite64 W B hB hne m r
+
+theorem fbig_base_to_f32_panic_iff (W B : Nat) (hB : 2 ≤ B) (hne : B ≠ 2) (m : Float.Mode) (r : FRepr) :
+    fbigToFloatBase into32 intoSite32 W B m r = some (.error (.undocumented intoSite32)) ↔
+      ∃ (v : FRepr) (f1 : Option Float.Rounding), Dashu.Model.Text.convertBase W B 2 m 24 r = .ok (v, f1) ∧
+        bitLen v.signif.natAbs = 25 :=
+  fbigToFloatBase_panic_iff into32 into32_compat intoSite32 W B hB hne m r
+
+-- non-vacuity (kernel-checked): the decimal 4899e-7 (the property text's example) reaches the panic region of to_f64
+-- (54-bit quotient of repr_div); 18585e-7 and 1e30 convert to the correctly rounded double; 5e-324 goes through ln/exp
+example : fbigToFloatBase into64 intoSite64 64 10 .halfEven ⟨4899, -7⟩ = some (.error (.undocumented intoSite64)) ∧
+    fbigToFloatBase into64 intoSite64 64 10 .halfEven ⟨0x4899, -7⟩ = some (.ok (0x3f5e731d2e0e3044, some .NoOp)) ∧
+    (ieeeRoundRat .binary64 .halfEven 0x4899 (10 ^ 7)).1 = 0x3f5e731d2e0e3044 ∧
+    fbigToFloatBase into64 intoSite64 64 10 .halfEven ⟨1, 30⟩ = some (.ok (0x46293e5939a08cea, some .AddOne)) ∧
+    fbigToFloatBase into32 intoSite32 64 10 .up ⟨4899, -7⟩ = some (.ok (0x3a006ca2, some .AddOne)) ∧
+    fbigToFloatBase into32 intoSite32 64 10 .down ⟨3, -1⟩ = some (.error (.undocumented intoSite32)) ∧
+    fbigToFloatBase into64 intoSite64 64 10 .halfEven ⟨5, -324⟩ = none := by decide +kernel
 
 end Dashu.Props.C06
